@@ -278,6 +278,7 @@ CHECKS["C10"] = {
         rapid("dleq", "^TestDLEQ$", 320, 40000, qs=8, ts=16),
         rapid("encoding", "^TestDLEQEncoding$", 1000, 200000, qs=2, ts=16),
         rapid("mintsigs", "^TestMintSignatures$", 48, 6000, qs=8, ts=16),
+        rapid("http", "^TestMintSignaturesHTTP$", 64, 6000, qs=8, ts=16),
     ],
 }
 
